@@ -21,6 +21,7 @@ func init() {
 		},
 		Run: runC35,
 		Controls: []Control{
+			{Name: "isolated-source-returned-unseeded", File: "util/dijkstra/dijkstra.go", Old: "\tspt := t.newSPT()\n\n\ttmp := spt[from]\n", New: "\tspt := t.newSPT()\n\tif len(t.edges[from]) == 0 {\n\t\treturn spt\n\t}\n\n\ttmp := spt[from]\n", Expect: "source-has-distance-zero"},
 			{Name: "spt-seeds-source-in-topology", File: "util/dijkstra/dijkstra.go", Old: "\tspt := t.newSPT()\n", New: "\tt.nodes[from] = 0\n\tspt := t.newSPT()\n", Expect: "spt-leaves-topology-untouched"},
 			{Name: "selection-takes-unreached-candidate", File: "util/dijkstra/dijkstra.go", Old: "\t\t\tif spt[candidate].Distance == -1 {\n\t\t\t\tcontinue\n\t\t\t}\n", New: "", Expect: "dijkstra-selection"},
 			{Name: "selection-prefers-farther", File: "util/dijkstra/dijkstra.go", Old: "\t\t\tif spt[candidate].Distance < nextDistance {", New: "\t\t\tif spt[candidate].Distance > nextDistance {", Expect: "dijkstra-selection"},
@@ -37,6 +38,7 @@ func init() {
 
 func runC35(c *core.Ctx) {
 	sptReadsTopologyOnly(c)
+	sourceSeededOnEveryPath(c)
 	p := c.P
 	fns := p.FuncsIn("util/dijkstra")
 	if len(fns) == 0 {
@@ -467,4 +469,55 @@ func sptReadsTopologyOnly(c *core.Ctx) {
 		c.Check(bad == "", rule, f.Name()+" only reads the topology", pos, "the shortest-path computation "+bad+": the Topology is shared by the runs from every source, so a later run starts from what an earlier one left behind (earlier sources count as reached at distance 0: distances too small, unreachable nodes reported reachable)")
 	}
 	_ = n
+}
+
+// sourceSeededOnEveryPath: the tree SPT returns has the source at distance 0 — every return of SPT lies behind the
+// store of the source's entry (spt[from] = …), and the value stored got Distance = 0.  A shortcut return ahead of the
+// seeding hands out a tree in which the source itself is unreachable (-1).
+func sourceSeededOnEveryPath(c *core.Ctx) {
+	const rule = "source-has-distance-zero"
+	p := c.P
+	f := c.MustFunc("util/dijkstra.(*Topology).SPT")
+	if f == nil {
+		return
+	}
+	from := core.ParamObj(f, 0)
+	distF := p.Field("util/dijkstra", "Path", "Distance")
+	var seeded types.Object // the local stored at spt[from]
+	isSeed := func(n ast.Node) bool {
+		as, ok := n.(*ast.AssignStmt)
+		if !ok || len(as.Lhs) != 1 {
+			return false
+		}
+		ie, ok := core.Unparen(as.Lhs[0]).(*ast.IndexExpr)
+		if !ok || from == nil || core.ObjOf(f.Pkg, ie.Index) != from {
+			return false
+		}
+		seeded = core.ObjOf(f.Pkg, as.Rhs[0])
+		return true
+	}
+	rets, implicit := core.ExitsWithout(p.CFG(f), isSeed)
+	pos := f.Decl.Pos()
+	if len(rets) > 0 {
+		pos = rets[0].Pos()
+	}
+	c.Check(len(rets) == 0 && !implicit, rule, f.Name()+" seeds the source before every return", pos,
+		"SPT can return before the source's entry was stored with distance 0: the returned tree reports the source itself as unreachable (distance -1)")
+	// the stored value's Distance is the constant 0
+	zero := false
+	ast.Inspect(f.Decl.Body, func(n ast.Node) bool {
+		as, ok := n.(*ast.AssignStmt)
+		if !ok || len(as.Lhs) != 1 || len(as.Rhs) != 1 {
+			return true
+		}
+		if core.FieldOf(f.Pkg, as.Lhs[0]) == distF && distF != nil {
+			if b := core.BaseIdent(as.Lhs[0]); b != nil && seeded != nil && core.ObjOf(f.Pkg, b) == seeded {
+				if v := core.ConstOf(f.Pkg, as.Rhs[0]); v != nil && v.ExactString() == "0" {
+					zero = true
+				}
+			}
+		}
+		return true
+	})
+	c.Check(zero, rule, f.Name()+" gives the source distance 0", f.Decl.Pos(), "the entry stored for the source does not get Distance = 0")
 }
